@@ -223,6 +223,27 @@ let eval_line (fields : string list) : (string * string) list =
         let v = int_of_n a + 256 * (int_of_n b + 256 * (int_of_n c + 256 * int_of_n d)) in
         if res <> "ok " ^ string_of_int v then fail "oracle.C09" "read_offset is not the little-endian value"
       | _ -> if res <> "err" then fail "oracle.C09" "read_offset accepted fewer than 4 bytes")
+   | ["usel"; b; res] ->
+     let x = n_of_dec b in
+     let m = match res_of_outcome (M.union_selector_new x) with
+       | ROk y -> Printf.sprintf "ok %d 1 0" (int_of_n y) | r -> class_of r in
+     if m <> res then fail "corr.split_union" ("UnionSelector::new model=" ^ m);
+     if res = "panic" then fail "oracle.C05" "UnionSelector::new panicked";
+     let expect = if int_of_string b <= 127 then Printf.sprintf "ok %s 1 0" b else "err" in
+     if res <> expect then fail "oracle.C15" ("UnionSelector::new / into u8 / == u8: expected " ^ expect)
+   | ["word4"; n; hex; back; rhex; rd] ->
+     (* legacy four-byte selector helpers = the offset word codec *)
+     let x = n_of_dec n in
+     let crate = bytes_of_hex hex in
+     if M.encode_length x <> crate then fail "corr.encode_length" ("legacy selector word model=" ^ hex_of_bytes (M.encode_length x));
+     let show o = match res_of_outcome o with ROk y -> "ok " ^ string_of_int (int_of_n y) | r -> class_of r in
+     if show (M.read_offset crate) <> back then fail "corr.read_offset" "legacy read of an encoded selector";
+     if show (M.read_offset (bytes_of_hex rhex)) <> rd then fail "corr.read_offset" ("legacy read model=" ^ show (M.read_offset (bytes_of_hex rhex)));
+     if back = "panic" || rd = "panic" then fail "oracle.C05" "read_four_byte_union_selector panicked";
+     if M.N.ltb x two_pow_32 && back <> "ok " ^ n then begin
+       fail "oracle.C17" "legacy selector word does not read back";
+       fail "oracle.C09" "legacy selector word does not read back"
+     end
    | ["sunion"; hex; res] ->
      let bs = bytes_of_hex hex in
      let m = match res_of_outcome (M.split_union_bytes bs) with
